@@ -5,6 +5,8 @@ package c03
 
 import (
 	"context"
+	"crypto/sha256"
+	"encoding/hex"
 	"encoding/json"
 	"fmt"
 	"io"
@@ -394,31 +396,44 @@ func seqs[T any](alpha []T, maxLen int) [][]T {
 // every applicable letter; the expansions of a level are partitioned over the shards, which exchange the (history, key)
 // pairs they found at a barrier, so that all shards continue from the same deduplicated frontier.
 func seamBDeep(t *testing.T, rep *ev.Report, shard, of int, from, to int) {
+	// A found state travels as (history, 128-bit hash of its canonical key): histories are strings of letter bytes,
+	// every shard keeps the hashes of all states seen (16 bytes each) and sends only the first history per new key.
 	type found struct {
-		H []int  `json:"h"`
+		H string `json:"h"`
 		K string `json:"k"`
 	}
-	seen := map[string]bool{}
-	var frontier [][]int
-	// level `from`: every history of that length
-	var all [][]int
-	var gen func(prefix []int)
-	gen = func(prefix []int) {
-		if len(prefix) == from {
-			all = append(all, append([]int(nil), prefix...))
-			return
-		}
-		for l := 0; l < nLetters; l++ {
-			gen(append(prefix, l))
-		}
+	type hkey [16]byte
+	hashOf := func(key string) hkey {
+		sum := sha256.Sum256([]byte(key))
+		var k hkey
+		copy(k[:], sum[:16])
+		return k
 	}
-	gen(nil)
-	level := func(name string, cands [][]int, count bool) bool {
+	enc := func(h []int) string {
+		b := make([]byte, len(h))
+		for i, l := range h {
+			b[i] = byte('a' + l)
+		}
+		return string(b)
+	}
+	dec := func(s string) []int {
+		h := make([]int, len(s))
+		for i := range s {
+			h[i] = int(s[i] - 'a')
+		}
+		return h
+	}
+	seen := map[hkey]struct{}{}
+	var frontier []string
+	// candidates of a level: every history of length `from` (first level), then frontier x letters
+	level := func(name string, n int, cand func(i int) []int, count bool) bool {
 		var mineFound []found
-		for i, hist := range cands {
+		mineSeen := map[hkey]struct{}{}
+		for i := 0; i < n; i++ {
 			if i%of != shard {
 				continue
 			}
+			hist := cand(i)
 			app, obs, viol, key := runHistoryK(t, hist, rep)
 			if !app {
 				continue
@@ -441,7 +456,15 @@ func seamBDeep(t *testing.T, rep *ev.Report, shard, of int, from, to int) {
 					break
 				}
 			}
-			mineFound = append(mineFound, found{hist, key})
+			k := hashOf(key)
+			if _, ok := seen[k]; ok {
+				continue
+			}
+			if _, ok := mineSeen[k]; ok {
+				continue
+			}
+			mineSeen[k] = struct{}{}
+			mineFound = append(mineFound, found{enc(hist), hex.EncodeToString(k[:])})
 		}
 		// a shard that has seen enough violations says so at the barrier, and every shard stops after this level:
 		// leaving alone would keep the others waiting for it
@@ -449,6 +472,7 @@ func seamBDeep(t *testing.T, rep *ev.Report, shard, of int, from, to int) {
 			Found []found `json:"found"`
 			Stop  bool    `json:"stop"`
 		}{mineFound, rep.NumViolations() > 20})
+		mineFound, mineSeen = nil, nil
 		parts, err := ev.Exchange(name, shard, of, payload)
 		if err != nil {
 			rep.HarnessError("deep search: %v", err)
@@ -469,27 +493,38 @@ func seamBDeep(t *testing.T, rep *ev.Report, shard, of int, from, to int) {
 			rep.NotExhaustive("deep search stopped at " + name + ": a shard has reported more than 20 violations")
 			return false
 		}
-		sort.Slice(merged, func(i, j int) bool { return fmt.Sprint(merged[i].H) < fmt.Sprint(merged[j].H) })
-		frontier = nil
+		// the same order in every shard: by history (the first history in this order represents its state)
+		sort.Slice(merged, func(i, j int) bool { return merged[i].H < merged[j].H })
+		frontier = frontier[:0]
 		for _, f := range merged {
-			if !seen[f.K] {
-				seen[f.K] = true
+			var k hkey
+			hex.Decode(k[:], []byte(f.K))
+			if _, ok := seen[k]; !ok {
+				seen[k] = struct{}{}
 				frontier = append(frontier, f.H)
 			}
 		}
 		return true
 	}
-	if !level(fmt.Sprintf("L%d", from), all, false) {
+	total := 1
+	for i := 0; i < from; i++ {
+		total *= nLetters
+	}
+	first := func(i int) []int {
+		h := make([]int, from)
+		for j := from - 1; j >= 0; j-- {
+			h[j] = i % nLetters
+			i /= nLetters
+		}
+		return h
+	}
+	if !level(fmt.Sprintf("L%d", from), total, first, false) {
 		return
 	}
 	for depth := from + 1; depth <= to; depth++ {
-		var cands [][]int
-		for _, h := range frontier {
-			for l := 0; l < nLetters; l++ {
-				cands = append(cands, append(append([]int(nil), h...), l))
-			}
-		}
-		if !level(fmt.Sprintf("L%d", depth), cands, true) {
+		prev := append([]string(nil), frontier...)
+		next := func(i int) []int { return append(dec(prev[i/nLetters]), i%nLetters) }
+		if !level(fmt.Sprintf("L%d", depth), len(prev)*nLetters, next, true) {
 			return
 		}
 		rep.SetMax("deep_search_depth", int64(depth))
